@@ -1,7 +1,7 @@
 //! mode conc: forced thread schedules over the `eyeball_verif` pause points (C02 C03 C04).
 //! Needs the crate built with `--cfg eyeball_verif`.  Input line: `case \t model-observation`
 //! (the model's prediction is used only to decide how long to wait for a thread: a thread the model
-//! predicts to be blocked gets a short confirmation wait, a thread predicted to advance gets 10 s).
+//! predicts to be blocked gets a short confirmation wait, a thread predicted to advance gets 4 s).
 //! Mirrors /verif/ocaml/m_conc.ml.
 #![cfg(eyeball_verif)]
 use crate::common::*;
@@ -58,7 +58,7 @@ fn install_hook() {
     })));
 }
 
-const LONG: Duration = Duration::from_secs(10);
+const LONG: Duration = Duration::from_secs(4);
 const SHORT: Duration = Duration::from_millis(40);
 
 /// wait until the slot's epoch moves past `epoch0` (new pause point or done); false = timed out
